@@ -18,6 +18,9 @@ import (
 // after every call — Parse+call, Retrieve, repeated calls, failing calls, accessor mode with
 // every Get (never Set) — and, for a share of the cases, after several goroutines evaluated
 // parsed functions on the one shared document. The model is asked `(q writes …)` = 0.
+// One case in 25 (class scale): the document has padded containers (arrays of 17..300 elements whose
+// new elements are records like their siblings, objects of 16..70 members; Inflate in b9_scale.go), and
+// 60% of these paths lead to a padded container and put the emphasised filter on it.
 
 type c04 struct{}
 
@@ -335,6 +338,48 @@ func c04GenCase(r *Rng) (interface{}, *Path, []string) {
 	return doc, p, c04SortedTags(g.tags)
 }
 
+// c04ScaleCase: class scale — a document with padded containers and a filter-heavy path over it.
+func c04ScaleCase(r *Rng, maxNodes int) (interface{}, *Path, []string, []Inflated) {
+	o := c04Opts(r)
+	doc, inf := ScaleDoc(r, o, InflateOpts{Arrays: true, Objects: r.Chance(35), MaxNodes: maxNodes, ArrLens: []int{17, 48, 64, 65, 130, 257, 300}})
+	g := &c04Gen{r: r, o: o, root: doc, tags: map[string]bool{}}
+	var p *Path
+	if len(inf) > 0 && r.Chance(60) {
+		x := inf[r.Intn(len(inf))]
+		p = &Path{Head: HeadRoot}
+		node := doc
+		for _, sg := range x.Loc {
+			switch {
+			case r.Chance(15):
+				p.Steps = append(p.Steps, &Step{Kind: StWild, Bracket: r.Chance(50)})
+			case sg.IsIdx:
+				p.Steps = append(p.Steps, c04Index(int64(sg.Idx)))
+			default:
+				p.Steps = append(p.Steps, c04Child(r, sg.Key))
+			}
+			node, _ = c12At(node, []c12Seg{sg})
+		}
+		p.Steps = append(p.Steps, g.filterStep(node))
+		m, ok := pickMember(r, node)
+		for n := r.Weighted([]int{55, 35, 10}); n > 0; n-- {
+			var st *Step
+			st, m, ok = o.genStep(r, doc, m, ok, true)
+			p.Steps = append(p.Steps, st)
+		}
+		if o.Funcs && r.Chance(15) {
+			p.Fns = o.genFns(r, 2)
+		}
+		g.tag("scale:filter-on-padded-container")
+	} else {
+		p = g.path(4)
+	}
+	g.tag("class:scale")
+	for _, t := range ScaleTags(inf) {
+		g.tag(t)
+	}
+	return doc, p, c04SortedTags(g.tags), inf
+}
+
 func c04SortedTags(m map[string]bool) []string {
 	out := make([]string, 0, len(m))
 	for k := range m {
@@ -385,7 +430,14 @@ func c04Touch(out Outcome) {
 
 func (c04) Exec(seed int64, i int, tier string) Record {
 	r := CaseRng(seed, "C04", i)
-	doc, p, gtags := c04GenCase(r)
+	var doc interface{}
+	var p *Path
+	var gtags []string
+	if i%25 == 11 {
+		doc, p, gtags, _ = c04ScaleCase(r, 900)
+	} else {
+		doc, p, gtags = c04GenCase(r)
+	}
 	text := Render(p, r)
 	jn := r.Chance(40)
 	if jn {
